@@ -4844,3 +4844,14 @@ def run(chk):
     chk.floor("F4-weak-form", 7)
     chk.floor("F4-", 20)
     chk.floor("C-", 10)
+
+
+# --- engine I (pgverif/oneshot.py): one-shot iterators handed out by the grid accessors are walked once per creation and never memoised.
+# Run first so that its reports do not depend on the idiom recognition of the rules above.
+_run_before_engine_I = run
+
+
+def run(chk):  # noqa: F811
+    from ..oneshot import attach
+    attach(chk, [(U.POISSON, {"DiffEqSolver"})])
+    _run_before_engine_I(chk)
